@@ -12,9 +12,16 @@ import Driver.HSet
 import Driver.HRefine
 import Driver.HGocty
 import Driver.HConvert
+import Driver.HStd
+import Driver.HStdNum
+import Driver.HMarks
+import Driver.HMsgpack
+import Driver.HJsonVal
+import Driver.HStdlib
+import Driver.HWF
 open CtyModel
 
-def handlers : List Handler := [handleTy, handleVal, handleNum, handleOps, handleFunc, handleSet, handleRefine, handleGocty, handleConvert]
+def handlers : List Handler := [handleTy, handleVal, handleNum, handleOps, handleFunc, handleSet, handleRefine, handleGocty, handleConvert, handleStd, handleStdNum, handleMarks, handleMsgpack, handleJsonVal, handleStdlib, handleWF]
 
 def handle (op : String) (args : List Sexp) : String :=
   match handlers.findSome? (fun h => h op args) with
